@@ -29,7 +29,9 @@ class Obs:
         self.title = fb.title
         self.message = fb.message
         self.else_message = fb.else_message
-        self.fields = fb.fields if isinstance(fb.fields, dict) else {}
+        # Location values are read by their attributes (never compared with pedal's own ==)
+        from vlib.gen_report import encode_value
+        self.fields = {k: encode_value(v) for k, v in fb.fields.items()} if isinstance(fb.fields, dict) else {}
         self.correct = fb.correct
         self.score = fb.score
         self.valence = fb.valence
